@@ -435,6 +435,21 @@ for _pid in ("C01", "C06", "C07", "C08", "C18", "C19"):
                                   " Model/UdpPort.v (Tie/UdpAgree.v); the loop-back network is assumed first-in first-out and lossless"
                                   " (observed by the udp cases).")
 
+# round 8: the scan called after a rejected frame (C19's timestamps must not come from a frame that failed validation); the
+# query decoders under C09's totality clause
+_add_kind("C19", "client", dict(PROPS["C07"]["kinds"]["client"]), "Run.EvalClient", ["XS.Lib.Bufio", "XS.Spec.ClientOps"])
+_add_kind("C09", "query", dict(PROPS["C14"]["kinds"]["query"]), "Run.EvalConfig")
+for _t in ("Tie/ClientAgree.v",):
+    if _t not in PROPS["C19"]["tie_files"]:
+        PROPS["C19"]["tie_files"].append(_t)
+for _pid in ("C02", "C03", "C07", "C09", "C19"):
+    PROPS[_pid]["rule"] += (" Also: a measurement frame that fails validation (one bit of its last payload byte or checksum flipped)"
+                            " first or after a partly walked accepted frame, the packet scan, raw packet, type and value read after the refusal.")
+PROPS["C09"]["rule"] += " Also: the six query commands on arbitrary reply payloads (C14's cases), each call under a 4 s guard."
+PROPS["C14"]["rule"] += " Also: product codes padded with NUL bytes; every reply with its checksum byte arriving in a read of its own; each call under a 4 s guard."
+PROPS["C10"]["rule"] += " Also: port errors whose chain ends in io.EOF (still the port's failure); a port that does not repeat its failure when read again."
+PROPS["C12"]["rule"] += " Also: the short packet cut out of a full one by re-slicing (length byte unchanged, the missing byte behind the slice's end)."
+
 # ---- what the later rounds of seeded changes added to the generators (appended to each property's rule, so that the
 # evidence says what a run covered) ----
 _RULE_MORE = {
